@@ -171,9 +171,11 @@ fn group_concat(tags: &[(Vec<u8>, Vec<u8>, bool)]) -> Vec<u8> {
 
 fn gen_tag_rows(r: &mut Rng, small: bool) -> Vec<(Vec<u8>, Vec<u8>, bool)> {
     let n = if small { r.below(3) } else { match r.below(8) { 0 => 0, 1 => 1, 2 => 40, 3 => 200, _ => r.below(8) } };
+    // (the text stays under ~6 KB: the Lean model indexes a list)
+    let many = n >= 40;
     (0..n).map(|_| {
-        let ln = if small { r.below(3) } else { match r.below(5) { 0 => 0, 1 => 1, 2 => 29, _ => r.below(20) } };
-        let lv = if small { r.below(3) } else { match r.below(5) { 0 => 0, 1 => 1, 2 => 300, _ => r.below(40) } };
+        let ln = if small || many { r.below(3) } else { match r.below(5) { 0 => 0, 1 => 1, 2 => 29, _ => r.below(20) } };
+        let lv = if small || many { r.below(3) } else { match r.below(5) { 0 => 0, 1 => 1, 2 => 300, _ => r.below(40) } };
         (r.bytes(ln), r.bytes(lv), r.chance(1, 2))
     }).collect()
 }
@@ -295,6 +297,15 @@ fn exec_encode(case: &Value) -> Value {
     json!({"out": out, "oracle": fails, "feat": feat})
 }
 
+/// no i64 operation of `replace_arg_placeholders` can overflow: small start index, every digit run at most 18 digits
+fn i64_safe(text: &str, start: i64) -> bool {
+    let mut run = 0usize;
+    for c in text.chars() {
+        if c.is_ascii_digit() { run += 1; if run > 18 { return false; } } else { run = 0; }
+    }
+    start.unsigned_abs() <= 1u64 << 40
+}
+
 fn exec_replace(case: &Value) -> Value {
     let text = case["text"].as_str().unwrap_or("").to_string();
     let start = case["start"].as_i64().unwrap_or(1);
@@ -302,7 +313,15 @@ fn exec_replace(case: &Value) -> Value {
     let mut fails = vec![];
     let mut feat = json!({"replace": 1});
     let out = match res {
-        Err(_) => { fails.push(oracle("replace:panic", json!({"text": text, "start": start}))); feat["replace_panic"] = json!(1); json!({"panic": true}) }
+        Err(_) => {
+            // A panic is a failure wherever i64 arithmetic cannot be the cause (every text the encoder can produce lies there).
+            // Outside (a `$`-number that does not fit an i64, a start index at the edge of i64) the function is known not to be
+            // total (Props/C04S.lean: replaceArgs_total_refuted); unreachable through the public API, so recorded as a diagnostic
+            // — the model must still agree on the outcome.
+            if i64_safe(&text, start) { fails.push(oracle("replace:panic", json!({"text": text, "start": start}))); feat["replace_panic"] = json!(1); }
+            else { feat["replace_panic_i64_range"] = json!(1); }
+            json!({"panic": true})
+        }
         Ok(s) => {
             if let Some(e) = case.get("expect").and_then(|e| e.as_str()) {
                 feat["replace_wf"] = json!(1);
